@@ -201,7 +201,7 @@ func (m *UDPMuxDefault) GetConn(ufrag string, addr net.Addr) (net.PacketConn, er
 		muxedConn = m.createMuxedConn(ufrag)
 		go func() {
 			<-muxedConn.CloseChannel()
-			m.RemoveConnByUfrag(ufrag)
+			m.removeConn(ufrag, muxedConn)
 			m.removeConnAddresses(muxedConn)
 		}()
 
@@ -250,6 +250,21 @@ func (m *UDPMuxDefault) RemoveConnByUfrag(ufrag string) {
 		for _, addr := range addresses {
 			delete(m.addressMap, addr)
 		}
+	}
+}
+
+// removeConn unregisters conn if it is still the connection registered under ufrag. The
+// close watcher must not remove by name: by the time conn is closed the ufrag may belong
+// to a newer connection, or to the connection of the other IP family.
+func (m *UDPMuxDefault) removeConn(ufrag string, conn *udpMuxedConn) {
+	m.mu.Lock()
+	defer m.mu.Unlock()
+
+	if c, ok := m.connsIPv4[ufrag]; ok && c == conn {
+		delete(m.connsIPv4, ufrag)
+	}
+	if c, ok := m.connsIPv6[ufrag]; ok && c == conn {
+		delete(m.connsIPv6, ufrag)
 	}
 }
 
